@@ -176,6 +176,32 @@ def oracle(tier, rng, deep=False):
         except Exception as e:
             ev += 1
             failures.append(dict(site=f"compiled-code-error:{s}:{d if 'datafit' in str(e)[:400] or True else ''}:{pn}", input=inp, observed=f"{type(e).__name__}: {str(e)[:200]}"))
+    # histories on ONE solver object: a composition accepted for dense X and refused for CSC must still be refused (with an
+    # explanation) when the same solver object has just solved the dense problem -- validation happens on every call
+    flips = [(s, d, pn, fi, sd) for s in tab["solvers"] for d in D for pn in P for fi in (False,) for sd in (True, False)
+             if model_validate(tab, s, d, pn, False, sd) == "accepted" and model_validate(tab, s, d, pn, True, sd) == "refused"]
+    if flips:
+        for (s, d, pn, fi, sd) in (rng.sample(flips, min(len(flips), 10)) if tier == "quick" and not deep else flips):
+            y = targets(rng, X, D[d][1])
+            site = f"{s}:{d}:{pn}"
+            inp = dict(solver=s, datafit=d, penalty=pn, history=["dense", "csc"], subdiff=sd)
+            solver = make_solver(s, fi, sd)
+            try:
+                df = sl.cc(D[d][0])
+                if hasattr(df, "initialize"):
+                    df.initialize(X, y)
+                solver.solve(X, y, None if s == "GramCD" else df, sl.cc(P[pn]))
+            except Exception:
+                continue                      # the dense solve itself is the business of the loop above
+            ev += 1
+            try:
+                solver.solve(Xs, y, None if s == "GramCD" else df, sl.cc(P[pn]))
+                failures.append(dict(site=f"unsupported-storage-not-refused-after-reuse:{site}", input=inp, observed="second solve (CSC) returned"))
+            except (AttributeError, ValueError) as e:
+                if not any(t in str(e) for t in EXPL):
+                    failures.append(dict(site=f"unexplained-error-after-reuse:{site}", input=inp, observed=f"{type(e).__name__}: {str(e)[:200]}"))
+            except Exception as e:
+                failures.append(dict(site=f"compiled-code-error-after-reuse:{s}", input=inp, observed=f"{type(e).__name__}: {str(e)[:200]}"))
     return dict(evaluations=ev, distinct_nontrivial=ev, failures=failures, samples=[dict(accepted_cells_solved=ev)])
 
 
